@@ -149,7 +149,7 @@ where
 pub const fn decode_signbit(v: u32) -> i32 {
     let is_negative = v % 2 == 1;
     if is_negative {
-        -(((v >> 1) + 1) as i32)
+        (((v >> 1) + 1) as i32).wrapping_neg()
     } else {
         (v >> 1) as i32
     }
